@@ -120,14 +120,14 @@ def run(facts, tr, rep):
     dec_seen = set()
     for (b_, cs, tgt) in cb.transition_calls():
         name = b_.def_.split("::")[-1]
-        sbb, ssw = cb.state_arms(b_)
-        if ssw is None or not cb.in_arm(b_, sbb, ssw, "HalfOpen", cs.bb):
+        arm, arm_edge = cb.arm_of(b_, cs.bb)
+        if arm != "HalfOpen":
             continue
         rep.saw(b_)
         edges = dominating_edges(tr, b_, cs.bb)
         if name == "record_failure" and tgt == "Open":
             dec_seen.add("fail")
-            inner = [e for e in edges if e["kind"] == "bool" and cb.in_arm(b_, sbb, ssw, "HalfOpen", e["bb"])]
+            inner = cb.inner_guards(b_, cs.bb, arm_edge)
             rep.ob("C09.DECIDE", skey(b_, "halfopen-failure-reopens"), not inner, cs.where(),
                    "any failing trial call re-opens the breaker unconditionally" if not inner else
                    "a failing trial call re-opens the breaker only under an extra condition: trial calls keep being admitted after a failure")
